@@ -2,6 +2,7 @@
 from io import BytesIO
 
 from props.common import FragStream, enc_str, enc_list, Reader, environ
+from props.bodyA_shared import TE_CHUNKED, TE_OTHER
 
 ID = 'C13'
 COQ_MODEL = 'model.BodyLimits'
@@ -135,6 +136,8 @@ def gen_body(rng, kind='body'):
              sched=gen_sched(rng, len(data)), via=via, payload_len=len(payload), layout=layout,
              ctype=ctype, expect=expect)
     if via != 'func':
+        # the Transfer-Encoding spelling (shared pool with C05): any value containing "chunked" in any case
+        c['te'] = rng.choice(TE_CHUNKED) if chunked else rng.choice([None, None, None] + TE_OTHER)
         if rng.random() < 0.2:
             # the Request object used directly: with DefaultConfig (errors_map present) or a plain dict (absent)
             c['inner'] = {'gbs': 'gbs', 'forms': 'forms'}.get(via)
@@ -216,6 +219,8 @@ def gen_epilogue(rng):
              layout=layout, ctype='multipart', expect='exact')
     if c['via'] == 'wsgi':
         c['conf'] = rng.choice(['ctor', 'setup'])
+        if chunked:
+            c['te'] = rng.choice(TE_CHUNKED)
     return c
 
 
@@ -245,6 +250,7 @@ def gen_seq(rng):
         it.update(buf=buf, maxb=maxb, data=list(data), layout=layout, payload_len=len(payload), conf=conf,
                   cl=-1 if it['chunked'] else len(payload), expect='exact', sched=gen_sched(rng, len(data)), app=k)
         it.pop('pre', None)
+        it['te'] = rng.choice(TE_CHUNKED) if it['chunked'] else rng.choice([None, None] + TE_OTHER)
         items.append(it)
     return dict(kind='seq', apps=apps, items=items)
 
@@ -312,6 +318,18 @@ def corpus():
     for via in ('iter_items', 'wsgi'):
         out.append(dict(kind='budget', parts=big_file, buf=200, via=via))
         out.append(dict(kind='budget', parts=big_file, buf=150, via=via))
+    # round 6: the Transfer-Encoding spellings (list values with blanks, other codings first, case): a chunked body
+    # above the limit is still 413 and a small one is still decoded (not taken for an empty body)
+    for te in sorted(set(TE_CHUNKED)):
+        for size in (3, 26):
+            enc_ = b'%x\r\n' % size + d[:size] + b'\r\n0\r\n\r\n'
+            c_ = _body(enc_, -1, 4, 5, chunked=True, via='wsgi', payload_len=size, layout=[[0, 3 if size < 16 else 4, (3 if size < 16 else 4) + size]])
+            c_['te'] = te
+            out.append(c_)
+    for te in TE_OTHER:
+        c_ = _body(d[:7], 7, 4, 5, via='wsgi')
+        c_['te'] = te
+        out.append(c_)
     # round 5: bytes behind the closing multipart delimiter count against max_body_size (both framings)
     form1, _ = build_multipart([dict(name='a', filename=None, size=3, pad=0)])
     for elen in (0, 1, 40, 41, 45, 400):
@@ -493,7 +511,10 @@ def access(rq, case, seen):
 
 def make_environ(case, st, ctype):
     env = environ('POST', '/b', **{'wsgi.input': st})
-    if case.get('chunked'):
+    if case.get('te') is not None:              # the header value itself; BodyMixin.chunked decides
+        if case['te']:
+            env['HTTP_TRANSFER_ENCODING'] = case['te']
+    elif case.get('chunked'):
         env['HTTP_TRANSFER_ENCODING'] = 'chunked'
     if case.get('cl', -1) >= 0:
         env['CONTENT_LENGTH'] = str(case['cl'])
@@ -639,8 +660,10 @@ def encode(case):
         body, _ = build_multipart(case['parts'])
         return [2, case['buf']] + enc_str(b'BnD') + enc_str(body)
     mode = (0 if case['kind'] == 'body' else 1) + (4 if raw_config(case) else 0)
-    return ([mode, case['cl'], 1 if case['chunked'] else 0, case['buf'],
+    te = case.get('te') if case['via'] != 'func' else None
+    return ([mode, case['cl'], 2 if te is not None else (1 if case['chunked'] else 0), case['buf'],
              0 if case['maxb'] is None else 1, case['maxb'] or 0]
+            + (enc_str(te.encode('latin1')) if te is not None else [])
             + enc_str(case['data']) + enc_list(case['sched'], lambda k: [k]))
 
 
@@ -901,7 +924,8 @@ API_SURFACE = [
     ('FieldStorage.read / iter_items(max_read)', 'covered by budget/iter_items and budget/wsgi; excluded: undecodable / nameless '
                                                  'headers, data before the first delimiter, missing data section -> 400 (C12)'),
     ('BytesIOProxy.read(sz) / read()', 'covered by budget/wsgi (block-wise and whole reads of every upload)'),
-    ('BodyMixin.content_length / chunked', 'covered (both headers present: correspondence only); spellings: C05'),
+    ('BodyMixin.content_length / chunked', 'covered: Transfer-Encoding spellings from the pool shared with C05 (list values with '
+                                           'blanks, other codings first, case, substrings); Content-Length spellings: C05'),
     ('Request.body read earlier / Request.copy() after the read / second Request over the environ', "covered by pre ops"),
     ('BaseRequest._raise, errors_map present / absent', 'covered by conf ctor/setup/setup_over/default and via=request with '
                                                         'DefaultConfig vs plain dict (C13_unmapped_errors_escape)'),
